@@ -57,6 +57,7 @@ fn main() {
         "trace" => streams::trace(&mut rng, count, &mut emit),
         "run" => streams::run(&mut rng, count, &mut emit),
         "prog-loop" => streams::prog_faulty(&mut rng, count, "loop", &mut emit),
+        "prog-multi" => streams::prog_faulty(&mut rng, count, "multi", &mut emit),
         "prog" => streams::prog(&mut rng, count, extra.get(0).map(|s| s.as_str()).unwrap_or("dag"), &mut emit),
         _ => { eprintln!("unknown stream {}", stream); std::process::exit(2); }
     }
